@@ -1,12 +1,1317 @@
 /-
-  placeholder — to be replaced by the port (see /verif/PORTING.md)
+  openflow13/action.go and openflow13/nx_action.go
+
+  Value layouts (fields positionally; an embedded struct / embedded pointer is ONE field):
+    ActionHeader(Type,Length)
+    ActionOutput(ActionHeader,Port,MaxLen,pad)        ActionSetqueue(ActionHeader,QueueId)   ActionGroup(ActionHeader,GroupId)
+    ActionMplsTtl(ActionHeader,MplsTtl,pad)           ActionNwTtl(ActionHeader,NwTtl,pad)    ActionDecNwTtl(ActionHeader,pad)
+    ActionPush(ActionHeader,EtherType,pad)            ActionPopVlan(ActionHeader,pad)        ActionPopMpls(ActionHeader,EtherType,pad)
+    ActionSetField(ActionHeader,Field)                -- Field is a MatchField VALUE
+    NXActionHeader(*ActionHeader,Vendor,Subtype)      -- the embedded pointer is `.nil` in new(NXActionHeader)
+    NXActionConjunction(*NXActionHeader,Clause,NClause,ID)
+    NXActionConnTrack(*NXActionHeader,Flags,ZoneSrc,ZoneOfsNbits,RecircTable,pad,Alg,actions)
+    NXActionRegLoad(*NXActionHeader,OfsNbits,DstReg,Value)
+    NXActionRegMove(*NXActionHeader,Nbits,SrcOfs,DstOfs,SrcField,DstField)
+    NXActionResubmit(*NXActionHeader,InPort,TableID,pad[3])
+    NXActionResubmitTable(*NXActionHeader,InPort,TableID,pad[3],withCT)
+    NXActionCTNAT(*NXActionHeader,pad,Flags,rangePresent,v4min,v4max,v6min,v6max,protoMin,protoMax)
+    NXActionOutputReg(*NXActionHeader,OfsNbits,SrcField,MaxLen,zero[6])
+    NXActionCTClear(*NXActionHeader,zeros[4])         NXActionDecTTL(*NXActionHeader,controllers,zeros[4])
+    NXActionDecTTLCntIDs(*NXActionHeader,controllers,zeros[4],cntIDs)
+    NXLearnSpecHeader(src,dst,output,nBits,length)    NXLearnSpecField(Field,Ofs)   NXLearnSpec(Header,SrcField,DstField,SrcValue)
+    NXActionLearn(*NXActionHeader,IdleTimeout,HardTimeout,Priority,Cookie,Flags,TableID,pad,FinIdleTimeout,FinHardTimeout,LearnSpecs,pad2)
+    NXActionNote(*NXActionHeader,Note)                NXActionRegLoad2(*NXActionHeader,DstField,pad)
+    NXActionController(*NXActionHeader,MaxLen,ControllerID,Reason,pad)
+
+  `a.Length` / `a.Type` on an NX action goes through two pointers (a.NXActionHeader.ActionHeader.Length): either one
+  being nil is a nil dereference (`.panic`).  `a.NXActionHeader.Len()` does not dereference and returns 10 even on nil.
 -/
 import OFV.Model.OF.Match
+import OFV.Gen.Pure
 namespace OFV.Model
 open OFV OFV.Go
 
-def kindsAction : KindTab := []
-def funcsAction : FuncTab := []
-def methodsAction : MethodTab := []
+/-- `err := f(...)` whose error is kept in a variable while the code carries on: value (or the default when it
+    failed) and the error flag -/
+def tryE {α} (r : R α) (dflt : α) : R (α × Bool) :=
+  match r with
+  | .ok a => .ok (a, false)
+  | .err => .ok (dflt, true)
+  | .panic => .panic
+  | .spin => .spin
+
+/-- `f.MarshalHeader()` through a `*MatchField` (nil pointer ⇒ dereference panic) -/
+def mfHeader : V → R Nat
+  | .nil => .panic
+  | f => .ok (MatchField.headerWord f).toNat
+
+/-- new(MatchField) -/
+def mfZero : V := .obj "MatchField" [.num 0, .num 0, .num 0, .num 0, .num 0, .nil, .nil]
+
+namespace ActionHeader
+def zero : V := .obj "ActionHeader" [.num 0, .num 0]
+def mk (ty ln : Nat) : V := .obj "ActionHeader" [.num ty, .num ln]
+def lenM (v : V) : R (UInt16 × V) := same 4 v
+def bytes : V → R Bytes
+  | .obj "ActionHeader" [.num ty, .num ln] => .ok (be16 (n16 ty) ++ be16 (n16 ln))
+  | _ => .panic      -- nil *ActionHeader: a.Type dereferences
+def marshalM (v : V) : R (Bytes × V) := do let b ← bytes v; same b v
+def unmarshal (_recv : V) (data : Slice) : R V :=
+  if data.len < 4 then .err else do
+    let ty ← data.u16In 0 2
+    let ln ← data.u16In 2 4
+    pure (mk ty.toNat ln.toNat)
+/-- `a.Length` through a possibly nil pointer -/
+def length : V → R UInt16
+  | .obj "ActionHeader" [_, .num ln] => .ok (n16 ln)
+  | _ => .panic
+def setLength (l : UInt16) : V → R V
+  | .obj "ActionHeader" [t, _] => .ok (.obj "ActionHeader" [t, V.u16 l])
+  | _ => .panic
+def setType (t : Nat) : V → R V
+  | .obj "ActionHeader" [_, l] => .ok (.obj "ActionHeader" [.num t, l])
+  | _ => .panic
+end ActionHeader
+
+/-! ActionMplsTtl and ActionNwTtl define no methods of their own: Len/MarshalBinary/UnmarshalBinary are the promoted
+    methods of the embedded ActionHeader (4 bytes; the ttl is neither written nor read). -/
+namespace ActionMplsTtl
+def zero : V := .obj "ActionMplsTtl" [ActionHeader.zero, .num 0, .bytes []]
+def lenM (v : V) : R (UInt16 × V) := same 4 v
+def marshalM : V → R (Bytes × V)
+  | .obj "ActionMplsTtl" [h, t, p] => do let b ← ActionHeader.bytes h; same b (.obj "ActionMplsTtl" [h, t, p])
+  | _ => .panic
+def unmarshal : V → Slice → R V
+  | .obj "ActionMplsTtl" [h, t, p], data => do
+    let h' ← ActionHeader.unmarshal h data
+    pure (.obj "ActionMplsTtl" [h', t, p])
+  | _, _ => .panic
+end ActionMplsTtl
+
+namespace ActionNwTtl
+def zero : V := .obj "ActionNwTtl" [ActionHeader.zero, .num 0, .bytes []]
+def lenM (v : V) : R (UInt16 × V) := same 4 v
+def marshalM : V → R (Bytes × V)
+  | .obj "ActionNwTtl" [h, t, p] => do let b ← ActionHeader.bytes h; same b (.obj "ActionNwTtl" [h, t, p])
+  | _ => .panic
+def unmarshal : V → Slice → R V
+  | .obj "ActionNwTtl" [h, t, p], data => do
+    let h' ← ActionHeader.unmarshal h data
+    pure (.obj "ActionNwTtl" [h', t, p])
+  | _, _ => .panic
+end ActionNwTtl
+
+namespace ActionOutput
+def zero : V := .obj "ActionOutput" [ActionHeader.zero, .num 0, .num 0, .bytes []]
+def lenM (v : V) : R (UInt16 × V) := same 16 v
+def marshalM : V → R (Bytes × V)
+  | .obj "ActionOutput" [h, .num port, .num ml, .bytes pad] => do
+    let hb ← ActionHeader.bytes h
+    let bs ← fill 16 [pCopy hb, pU32 port, pU16 ml, pCopy pad]
+    same bs (.obj "ActionOutput" [h, .num port, .num ml, .bytes pad])
+  | _ => .panic
+def unmarshal : V → Slice → R V
+  | .obj "ActionOutput" [h, _, _, .bytes pad], data =>
+    if data.len < 16 then .err else do
+      let d0 ← data.fromR 0
+      let h' ← ActionHeader.unmarshal h d0        -- cannot fail: len ≥ 16
+      let port ← data.u32From 4
+      let ml ← data.u16From 8
+      let s ← data.sliceR 10 16
+      pure (.obj "ActionOutput" [h', V.u32 port, V.u16 ml, .bytes (copyInto pad s.bytes)])
+  | _, _ => .panic
+/-- NewActionOutput(portNum) -/
+def new (port : Nat) : V :=
+  .obj "ActionOutput" [ActionHeader.mk Gen.openflow13.ActionType_Output 16, V.u32 (n32 port), .num 256, .bytes (zeros 6)]
+end ActionOutput
+
+namespace ActionSetqueue
+def zero : V := .obj "ActionSetqueue" [ActionHeader.zero, .num 0]
+def lenM (v : V) : R (UInt16 × V) := same 8 v
+def marshalM : V → R (Bytes × V)
+  | .obj "ActionSetqueue" [h, .num q] => do
+    let hb ← ActionHeader.bytes h
+    same (hb ++ be32 (n32 q)) (.obj "ActionSetqueue" [h, .num q])
+  | _ => .panic
+def unmarshal : V → Slice → R V
+  | .obj "ActionSetqueue" [h, _], data =>
+    if data.len ≠ 8 then .err else do
+      let d4 ← data.uptoR 4
+      let (h', _) ← tryE (ActionHeader.unmarshal h d4) h     -- error ignored (cannot fail)
+      let q ← data.u32In 4 8
+      pure (.obj "ActionSetqueue" [h', V.u32 q])
+  | _, _ => .panic
+def new (q : Nat) : V := .obj "ActionSetqueue" [ActionHeader.mk Gen.openflow13.ActionType_SetQueue 8, V.u32 (n32 q)]
+end ActionSetqueue
+
+namespace ActionGroup
+def zero : V := .obj "ActionGroup" [ActionHeader.zero, .num 0]
+def lenM (v : V) : R (UInt16 × V) := same 8 v
+def marshalM : V → R (Bytes × V)
+  | .obj "ActionGroup" [h, .num g] => do
+    let hb ← ActionHeader.bytes h
+    let bs ← fill 8 [pCopy hb, pU32 g]
+    same bs (.obj "ActionGroup" [h, .num g])
+  | _ => .panic
+def unmarshal : V → Slice → R V
+  | .obj "ActionGroup" [h, _], data =>
+    if data.len < 8 then .err else do
+      let d0 ← data.fromR 0
+      let h' ← ActionHeader.unmarshal h d0
+      let g ← data.u32From 4
+      pure (.obj "ActionGroup" [h', V.u32 g])
+  | _, _ => .panic
+def new (g : Nat) : V := .obj "ActionGroup" [ActionHeader.mk Gen.openflow13.ActionType_Group 8, V.u32 (n32 g)]
+end ActionGroup
+
+namespace ActionDecNwTtl
+def zero : V := .obj "ActionDecNwTtl" [ActionHeader.zero, .bytes []]
+def lenM (v : V) : R (UInt16 × V) := same 8 v
+def marshalM : V → R (Bytes × V)
+  | .obj "ActionDecNwTtl" [h, p] => do
+    let hb ← ActionHeader.bytes h
+    same (hb ++ zeros 4) (.obj "ActionDecNwTtl" [h, p])
+  | _ => .panic
+/-- `return a.ActionHeader.UnmarshalBinary(data[:4])` — no length check, the re-slice reaches up to cap -/
+def unmarshal : V → Slice → R V
+  | .obj "ActionDecNwTtl" [h, p], data => do
+    let d4 ← data.uptoR 4
+    let h' ← ActionHeader.unmarshal h d4
+    pure (.obj "ActionDecNwTtl" [h', p])
+  | _, _ => .panic
+def new : V := .obj "ActionDecNwTtl" [ActionHeader.mk Gen.openflow13.ActionType_DecNwTtl 8, .bytes (zeros 4)]
+end ActionDecNwTtl
+
+namespace ActionPush
+def zero : V := .obj "ActionPush" [ActionHeader.zero, .num 0, .bytes []]
+def lenM (v : V) : R (UInt16 × V) := same 8 v
+def marshalM : V → R (Bytes × V)
+  | .obj "ActionPush" [h, .num et, p] => do
+    let hb ← ActionHeader.bytes h
+    same (hb ++ be16 (n16 et) ++ zeros 2) (.obj "ActionPush" [h, .num et, p])
+  | _ => .panic
+def unmarshal : V → Slice → R V
+  | .obj "ActionPush" [h, _, p], data => do
+    let d4 ← data.uptoR 4
+    let (h', _) ← tryE (ActionHeader.unmarshal h d4) h
+    let et ← data.u16From 4
+    pure (.obj "ActionPush" [h', V.u16 et, p])
+  | _, _ => .panic
+def new (ty et : Nat) : V := .obj "ActionPush" [ActionHeader.mk ty 8, V.u16 (n16 et), .bytes []]
+end ActionPush
+
+namespace ActionPopVlan
+def zero : V := .obj "ActionPopVlan" [ActionHeader.zero, .bytes []]
+def lenM (v : V) : R (UInt16 × V) := same 8 v
+def marshalM : V → R (Bytes × V)
+  | .obj "ActionPopVlan" [h, p] => do
+    let hb ← ActionHeader.bytes h
+    same (hb ++ zeros 4) (.obj "ActionPopVlan" [h, p])
+  | _ => .panic
+def unmarshal : V → Slice → R V
+  | .obj "ActionPopVlan" [h, p], data => do
+    let d4 ← data.uptoR 4
+    let (h', _) ← tryE (ActionHeader.unmarshal h d4) h
+    pure (.obj "ActionPopVlan" [h', p])
+  | _, _ => .panic
+def new : V := .obj "ActionPopVlan" [ActionHeader.mk Gen.openflow13.ActionType_PopVlan 8, .bytes []]
+end ActionPopVlan
+
+namespace ActionPopMpls
+def zero : V := .obj "ActionPopMpls" [ActionHeader.zero, .num 0, .bytes []]
+def lenM (v : V) : R (UInt16 × V) := same 8 v
+def marshalM : V → R (Bytes × V)
+  | .obj "ActionPopMpls" [h, .num et, p] => do
+    let hb ← ActionHeader.bytes h
+    same (hb ++ be16 (n16 et) ++ zeros 2) (.obj "ActionPopMpls" [h, .num et, p])
+  | _ => .panic
+def unmarshal : V → Slice → R V
+  | .obj "ActionPopMpls" [h, _, p], data => do
+    let d4 ← data.uptoR 4
+    let (h', _) ← tryE (ActionHeader.unmarshal h d4) h
+    let et ← data.u16From 4
+    pure (.obj "ActionPopMpls" [h', V.u16 et, p])
+  | _, _ => .panic
+def new (et : Nat) : V :=
+  .obj "ActionPopMpls" [ActionHeader.mk Gen.openflow13.ActionType_PopMpls 8, V.u16 (n16 et), .bytes []]
+end ActionPopMpls
+
+namespace ActionSetField
+def zero : V := .obj "ActionSetField" [ActionHeader.zero, mfZero]
+def lenM : V → R (UInt16 × V)
+  | .obj "ActionSetField" [h, f] => do
+    let (fl, f') ← MatchField.lenM f
+    .ok (round8 (4 + fl), .obj "ActionSetField" [h, f'])
+  | _ => .panic
+def marshalM (v : V) : R (Bytes × V) := do
+  let (l, v) ← lenM v
+  match v with
+  | .obj "ActionSetField" [h, f] =>
+    let hb ← ActionHeader.bytes h
+    let (fb, f') ← MatchField.marshalM f
+    let bs ← fill l.toNat [pCopyAdv hb 4, pCopy fb]
+    .ok (bs, .obj "ActionSetField" [h, f'])
+  | _ => .panic
+/-- The header error (len < 4) is overwritten; `data[4:]` then panics.  After `err = a.Field.UnmarshalBinary(..)`
+    the code still evaluates `a.Field.Len()`: when the field decoder failed, Value (or Mask) is a nil interface
+    (the receiver's Field is the zero MatchField for every receiver the library or the harness creates) and that
+    call panics — a decode error of the field surfaces as a panic. -/
+def unmarshal : V → Slice → R V
+  | .obj "ActionSetField" [h, f], data => do
+    let d0 ← data.fromR 0
+    let (h', _) ← tryE (ActionHeader.unmarshal h d0) h
+    let d4 ← data.fromR 4
+    match MatchField.unmarshal f d4 with
+    | .ok f' => do
+      let (_, f'') ← MatchField.lenM f'
+      pure (.obj "ActionSetField" [h', f''])
+    | .err => .panic
+    | .panic => .panic
+    | .spin => .spin
+  | _, _ => .panic
+/-- NewActionSetField(field): a.Length = a.Len() -/
+def new (f : V) : R V := do
+  let v := V.obj "ActionSetField" [ActionHeader.mk Gen.openflow13.ActionType_SetField 0, f]
+  let (l, v) ← lenM v
+  match v with
+  | .obj "ActionSetField" [h, f] => do
+    let h' ← ActionHeader.setLength l h
+    pure (.obj "ActionSetField" [h', f])
+  | _ => .panic
+end ActionSetField
+
+
+namespace NXActionHeader
+/-- new(NXActionHeader): the embedded *ActionHeader is nil -/
+def zero : V := .obj "NXActionHeader" [.nil, .num 0, .num 0]
+/-- NewNxActionHeader(subtype) with the Length the constructors store right afterwards -/
+def newL (subtype ln : Nat) : V :=
+  .obj "NXActionHeader" [ActionHeader.mk Gen.openflow13.ActionType_Experimenter ln,
+    .num Gen.openflow13.NxExperimenterID, V.u16 (n16 subtype)]
+def new (subtype : Nat) : V := newL subtype Gen.openflow13.NxActionHeaderLength
+def lenM (v : V) : R (UInt16 × V) := same (n16 Gen.openflow13.NxActionHeaderLength) v
+def bytes : V → R Bytes
+  | .obj "NXActionHeader" [ah, .num vendor, .num sub] => do
+    let hb ← ActionHeader.bytes ah
+    fill Gen.openflow13.NxActionHeaderLength [pCopy hb, pU32 vendor, pU16 sub]
+  | _ => .panic     -- nil *NXActionHeader
+def marshalM (v : V) : R (Bytes × V) := do let b ← bytes v; same b v
+def unmarshal (_recv : V) (data : Slice) : R V :=
+  if data.len < Gen.openflow13.NxActionHeaderLength then .err else do
+    let d4 ← data.uptoR 4
+    let ah ← ActionHeader.unmarshal ActionHeader.zero d4     -- cannot fail (4 bytes)
+    let vendor ← data.u32From 4
+    let sub ← data.u16From 8
+    pure (.obj "NXActionHeader" [ah, V.u32 vendor, V.u16 sub])
+/-- `a.NXActionHeader = new(NXActionHeader); err := a.NXActionHeader.UnmarshalBinary(data[0:])` -/
+def fresh (data : Slice) : R (V × Bool) := tryE (unmarshal zero data) zero
+/-- `a.Length` of the embedding action -/
+def length : V → R UInt16
+  | .obj "NXActionHeader" [ah, _, _] => ActionHeader.length ah
+  | _ => .panic
+def setLength (l : UInt16) : V → R V
+  | .obj "NXActionHeader" [ah, a, b] => do
+    let ah' ← ActionHeader.setLength l ah
+    pure (.obj "NXActionHeader" [ah', a, b])
+  | _ => .panic
+def setType (t : Nat) : V → R V
+  | .obj "NXActionHeader" [ah, a, b] => do
+    let ah' ← ActionHeader.setType t ah
+    pure (.obj "NXActionHeader" [ah', a, b])
+  | _ => .panic
+end NXActionHeader
+
+/-- common decoder prefix of most NX actions:
+      a.NXActionHeader = new(NXActionHeader); err := a.NXActionHeader.UnmarshalBinary(data[n:]); n += 10
+      if len(data) < int(a.Length) { return error }
+    When the header decoder failed (len(data) < 10) the fresh header still has a nil *ActionHeader and `a.Length`
+    panics; so wherever the code gets past this point `err` is nil and the final `return err` returns nil. -/
+def nxPrefix (data : Slice) : R V := do
+  let (h, _) ← NXActionHeader.fresh data
+  let l ← NXActionHeader.length h
+  if data.len < l.toNat then .err else pure h
+
+namespace NXActionConjunction
+def zero : V := .obj "NXActionConjunction" [.nil, .num 0, .num 0, .num 0]
+def lenM : V → R (UInt16 × V)
+  | .obj "NXActionConjunction" (h :: r) => do let l ← NXActionHeader.length h; same l (.obj "NXActionConjunction" (h :: r))
+  | _ => .panic
+def marshalM : V → R (Bytes × V)
+  | .obj "NXActionConjunction" [h, .num c, .num nc, .num id] => do
+    let l ← NXActionHeader.length h
+    let hb ← NXActionHeader.bytes h
+    let bs ← fill l.toNat [pCopy hb, pU8 c, pU8 nc, pU32 id]
+    same bs (.obj "NXActionConjunction" [h, .num c, .num nc, .num id])
+  | _ => .panic
+def unmarshal (_recv : V) (data : Slice) : R V := do
+  let h ← nxPrefix data
+  let c ← data.byteAt 10
+  let nc ← data.byteAt 11
+  let id ← data.u32From 12
+  pure (.obj "NXActionConjunction" [h, V.u8 c, V.u8 nc, V.u32 id])
+def new (c nc id : Nat) : V :=
+  .obj "NXActionConjunction" [NXActionHeader.newL Gen.openflow13.NXAST_CONJUNCTION 16, V.u8 (n8 c), V.u8 (n8 nc), V.u32 (n32 id)]
+end NXActionConjunction
+
+namespace NXActionRegLoad
+def zero : V := .obj "NXActionRegLoad" [.nil, .num 0, .nil, .num 0]
+def lenM : V → R (UInt16 × V)
+  | .obj "NXActionRegLoad" (h :: r) => do let l ← NXActionHeader.length h; same l (.obj "NXActionRegLoad" (h :: r))
+  | _ => .panic
+def marshalM : V → R (Bytes × V)
+  | .obj "NXActionRegLoad" [h, .num ofs, dst, .num val] => do
+    let l ← NXActionHeader.length h
+    let hb ← NXActionHeader.bytes h
+    let hw ← mfHeader dst
+    let bs ← fill l.toNat [pCopy hb, pU16 ofs, pU32 hw, pU64 val]
+    same bs (.obj "NXActionRegLoad" [h, .num ofs, dst, .num val])
+  | _ => .panic
+def unmarshal (_recv : V) (data : Slice) : R V := do
+  let h ← nxPrefix data
+  let ofs ← data.u16From 10
+  let s ← data.sliceR 12 16
+  -- a.DstReg = new(MatchField); err = a.DstReg.UnmarshalHeader(data[n:n+4])   (4 bytes: cannot fail)
+  let (dst, e) ← tryE (MatchField.unmarshalHeader mfZero s) mfZero
+  let val ← data.u64From 16
+  if e then .err else pure (.obj "NXActionRegLoad" [h, V.u16 ofs, dst, V.u64 val])
+def new (ofs : Nat) (dst : V) (val : Nat) : V :=
+  .obj "NXActionRegLoad" [NXActionHeader.newL Gen.openflow13.NXAST_REG_LOAD 24, V.u16 (n16 ofs), dst, V.u64 (n64 val)]
+end NXActionRegLoad
+
+namespace NXActionRegMove
+def zero : V := .obj "NXActionRegMove" [.nil, .num 0, .num 0, .num 0, .nil, .nil]
+def lenM : V → R (UInt16 × V)
+  | .obj "NXActionRegMove" (h :: r) => do let l ← NXActionHeader.length h; same l (.obj "NXActionRegMove" (h :: r))
+  | _ => .panic
+def marshalM : V → R (Bytes × V)
+  | .obj "NXActionRegMove" [h, .num nb, .num so, .num dso, sf, df] => do
+    let l ← NXActionHeader.length h
+    let hb ← NXActionHeader.bytes h
+    let shw ← mfHeader sf
+    let dhw ← mfHeader df
+    let bs ← fill l.toNat [pCopy hb, pU16 nb, pU16 so, pU16 dso, pU32 shw, pU32 dhw]
+    same bs (.obj "NXActionRegMove" [h, .num nb, .num so, .num dso, sf, df])
+  | _ => .panic
+def unmarshal (_recv : V) (data : Slice) : R V := do
+  let h ← nxPrefix data
+  let nb ← data.u16From 10
+  let so ← data.u16From 12
+  let dso ← data.u16From 14
+  let d16 ← data.fromR 16
+  -- err = a.SrcField.UnmarshalHeader(data[16:])  — this error is overwritten by the next assignment
+  let (sf, _) ← tryE (MatchField.unmarshalHeader mfZero d16) mfZero
+  let d20 ← data.fromR 20
+  let df ← MatchField.unmarshalHeader mfZero d20
+  pure (.obj "NXActionRegMove" [h, V.u16 nb, V.u16 so, V.u16 dso, sf, df])
+def new (nb so dso : Nat) (sf df : V) : V :=
+  .obj "NXActionRegMove" [NXActionHeader.newL Gen.openflow13.NXAST_REG_MOVE 24, V.u16 (n16 nb), V.u16 (n16 so), V.u16 (n16 dso), sf, df]
+end NXActionRegMove
+
+namespace NXActionResubmit
+def zero : V := .obj "NXActionResubmit" [.nil, .num 0, .num 0, .bytes (zeros 3)]
+def lenM : V → R (UInt16 × V)
+  | .obj "NXActionResubmit" (h :: r) => do let l ← NXActionHeader.length h; same l (.obj "NXActionResubmit" (h :: r))
+  | _ => .panic
+/-- writes in_port only; stores `a.TableID = OFPTT_ALL` in the RECEIVER instead of the buffer -/
+def marshalM : V → R (Bytes × V)
+  | .obj "NXActionResubmit" [h, .num ip, _, pad] => do
+    let l ← NXActionHeader.length h
+    let hb ← NXActionHeader.bytes h
+    let bs ← fill l.toNat [pCopy hb, pU16 ip]
+    .ok (bs, .obj "NXActionResubmit" [h, .num ip, .num Gen.openflow13.OFPTT_ALL, pad])
+  | _ => .panic
+def unmarshal : V → Slice → R V
+  | .obj "NXActionResubmit" [_, _, t, pad], data => do
+    let h ← nxPrefix data
+    let ip ← data.u16From 10
+    pure (.obj "NXActionResubmit" [h, V.u16 ip, t, pad])
+  | _, _ => .panic
+/-- NewNXActionResubmit: `a.Type = Type_Experimenter` (the MESSAGE type constant 4) overwrites the action type 0xffff -/
+def new (ip : Nat) : R V := do
+  let h ← NXActionHeader.setType Gen.openflow13.Type_Experimenter (NXActionHeader.newL Gen.openflow13.NXAST_RESUBMIT 16)
+  pure (.obj "NXActionResubmit" [h, V.u16 (n16 ip), .num 0, .bytes (zeros 3)])
+end NXActionResubmit
+
+namespace NXActionResubmitTable
+def zero : V := .obj "NXActionResubmitTable" [.nil, .num 0, .num 0, .bytes (zeros 3), .num 0]
+def zeroCT : V := .obj "NXActionResubmitTable" [.nil, .num 0, .num 0, .bytes (zeros 3), .num 1]
+def lenM : V → R (UInt16 × V)
+  | .obj "NXActionResubmitTable" (h :: r) => do let l ← NXActionHeader.length h; same l (.obj "NXActionResubmitTable" (h :: r))
+  | _ => .panic
+def marshalM : V → R (Bytes × V)
+  | .obj "NXActionResubmitTable" [h, .num ip, .num t, pad, ct] => do
+    let l ← NXActionHeader.length h
+    let hb ← NXActionHeader.bytes h
+    let bs ← fill l.toNat [pCopy hb, pU16 ip, pU8 t]
+    same bs (.obj "NXActionResubmitTable" [h, .num ip, .num t, pad, ct])
+  | _ => .panic
+def unmarshal : V → Slice → R V
+  | .obj "NXActionResubmitTable" [_, _, _, pad, ct], data => do
+    let h ← nxPrefix data
+    let ip ← data.u16From 10
+    let t ← data.byteAt 12
+    pure (.obj "NXActionResubmitTable" [h, V.u16 ip, V.u8 t, pad, ct])
+  | _, _ => .panic
+def new (subtype ip t ct : Nat) : V :=
+  .obj "NXActionResubmitTable" [NXActionHeader.newL subtype 16, V.u16 (n16 ip), V.u8 (n8 t), .bytes (zeros 3), .num ct]
+end NXActionResubmitTable
+
+namespace NXActionOutputReg
+def zero : V := .obj "NXActionOutputReg" [.nil, .num 0, .nil, .num 0, .bytes (zeros 6)]
+def lenM : V → R (UInt16 × V)
+  | .obj "NXActionOutputReg" (h :: r) => do let l ← NXActionHeader.length h; same l (.obj "NXActionOutputReg" (h :: r))
+  | _ => .panic
+def marshalM : V → R (Bytes × V)
+  | .obj "NXActionOutputReg" [h, .num ofs, sf, .num ml, .bytes z] => do
+    let l ← NXActionHeader.length h
+    let hb ← NXActionHeader.bytes h
+    let hw ← mfHeader sf
+    let bs ← fill l.toNat [pCopy hb, pU16 ofs, pU32 hw, pU16 ml, pCopyAdv z 6]
+    same bs (.obj "NXActionOutputReg" [h, .num ofs, sf, .num ml, .bytes z])
+  | _ => .panic
+def unmarshal : V → Slice → R V
+  | .obj "NXActionOutputReg" [_, _, _, _, z], data => do
+    let h ← nxPrefix data
+    let ofs ← data.u16From 10
+    let s ← data.sliceR 12 16
+    let (sf, e) ← tryE (MatchField.unmarshalHeader mfZero s) mfZero
+    let ml ← data.u16From 16
+    if e then .err else pure (.obj "NXActionOutputReg" [h, V.u16 ofs, sf, V.u16 ml, z])
+  | _, _ => .panic
+def new (sf : V) (ofs ml : Nat) : V :=
+  .obj "NXActionOutputReg" [NXActionHeader.newL Gen.openflow13.NXAST_OUTPUT_REG 24, V.u16 (n16 ofs), sf, V.u16 (n16 ml), .bytes (zeros 6)]
+end NXActionOutputReg
+
+namespace NXActionCTClear
+def zero : V := .obj "NXActionCTClear" [.nil, .bytes (zeros 4)]
+def lenM : V → R (UInt16 × V)
+  | .obj "NXActionCTClear" (h :: r) => do let l ← NXActionHeader.length h; same l (.obj "NXActionCTClear" (h :: r))
+  | _ => .panic
+def marshalM : V → R (Bytes × V)
+  | .obj "NXActionCTClear" [h, .bytes z] => do
+    let l ← NXActionHeader.length h
+    let hb ← NXActionHeader.bytes h
+    let bs ← fill l.toNat [pCopy hb, pCopy z]
+    same bs (.obj "NXActionCTClear" [h, .bytes z])
+  | _ => .panic
+def unmarshal (_recv : V) (data : Slice) : R V := do
+  let h ← nxPrefix data
+  pure (.obj "NXActionCTClear" [h, .bytes (zeros 4)])
+def new : V := .obj "NXActionCTClear" [NXActionHeader.newL Gen.openflow13.NXAST_CT_CLEAR 16, .bytes (zeros 4)]
+end NXActionCTClear
+
+namespace NXActionDecTTL
+def zero : V := .obj "NXActionDecTTL" [.nil, .num 0, .bytes (zeros 4)]
+def lenM : V → R (UInt16 × V)
+  | .obj "NXActionDecTTL" (h :: r) => do let l ← NXActionHeader.length h; same l (.obj "NXActionDecTTL" (h :: r))
+  | _ => .panic
+def marshalM : V → R (Bytes × V)
+  | .obj "NXActionDecTTL" [h, .num c, .bytes z] => do
+    let l ← NXActionHeader.length h
+    let hb ← NXActionHeader.bytes h
+    let bs ← fill l.toNat [pCopy hb, pU16 c, pCopy z]
+    same bs (.obj "NXActionDecTTL" [h, .num c, .bytes z])
+  | _ => .panic
+def unmarshal (_recv : V) (data : Slice) : R V := do
+  let h ← nxPrefix data
+  let c ← data.u16From 10
+  pure (.obj "NXActionDecTTL" [h, V.u16 c, .bytes (zeros 4)])
+def new : V := .obj "NXActionDecTTL" [NXActionHeader.newL Gen.openflow13.NXAST_DEC_TTL 16, .num 0, .bytes (zeros 4)]
+end NXActionDecTTL
+
+namespace NXActionDecTTLCntIDs
+def zero : V := .obj "NXActionDecTTLCntIDs" [.nil, .num 0, .bytes (zeros 4), .list []]
+def lenM : V → R (UInt16 × V)
+  | .obj "NXActionDecTTLCntIDs" (h :: r) => do let l ← NXActionHeader.length h; same l (.obj "NXActionDecTTLCntIDs" (h :: r))
+  | _ => .panic
+def marshalM : V → R (Bytes × V)
+  | .obj "NXActionDecTTLCntIDs" [h, .num c, .bytes z, .list ids] => do
+    let l ← NXActionHeader.length h
+    let hb ← NXActionHeader.bytes h
+    let bs ← fill l.toNat ([pCopy hb, pU16 c, pCopyAdv z 4] ++ ids.map (fun i => pU16 i.asNat))
+    same bs (.obj "NXActionDecTTLCntIDs" [h, .num c, .bytes z, .list ids])
+  | _ => .panic
+/-- `for i := 0; i < controllers; i++ { id := Uint16(data[n:]); n += 2 }` — no bound check against the data -/
+def readIDs (data : Slice) : Nat → Nat → R (List V)
+  | 0, _ => .ok []
+  | k + 1, n => do
+    let id ← data.u16From n
+    let rest ← readIDs data k (n + 2)
+    pure (V.u16 id :: rest)
+def unmarshal : V → Slice → R V
+  | .obj "NXActionDecTTLCntIDs" [_, _, _, .list ids0], data => do
+    let h ← nxPrefix data
+    let c ← data.u16From 10
+    let ids ← readIDs data c.toNat 16
+    pure (.obj "NXActionDecTTLCntIDs" [h, V.u16 c, .bytes (zeros 4), .list (ids0 ++ ids)])
+  | _, _ => .panic
+/-- NewNXActionDecTTLCntIDs(controllers, ids...): Length = 16 + 2*len(ids), NOT rounded up to a multiple of 8 -/
+def new (c : Nat) (ids : List V) : V :=
+  let l : UInt16 := 16 + n16 (2 * ids.length)
+  .obj "NXActionDecTTLCntIDs" [NXActionHeader.newL Gen.openflow13.NXAST_DEC_TTL_CNT_IDS l.toNat, V.u16 (n16 c), .bytes (zeros 4),
+    .list (ids.map (fun i => V.u16 (n16 i.asNat)))]
+end NXActionDecTTLCntIDs
+
+namespace NXActionController
+def zero : V := .obj "NXActionController" [.nil, .num 0, .num 0, .num 0, .num 0]
+def lenM (v : V) : R (UInt16 × V) := same 16 v     -- a.NXActionHeader.Len() + 6, no dereference
+def marshalM : V → R (Bytes × V)
+  | .obj "NXActionController" [h, .num ml, .num id, .num rs, pad] => do
+    let h' ← NXActionHeader.setLength 16 h          -- a.Length = a.Len()
+    let hb ← NXActionHeader.bytes h'
+    let bs ← fill 16 [pCopy hb, pU16 ml, pU16 id, pU8 rs]
+    .ok (bs, .obj "NXActionController" [h', .num ml, .num id, .num rs, pad])
+  | _ => .panic
+def unmarshal : V → Slice → R V
+  | .obj "NXActionController" [_, _, _, _, pad], data => do
+    let h ← NXActionHeader.unmarshal NXActionHeader.zero data
+    let l ← NXActionHeader.length h
+    if data.len < l.toNat then .err else do
+      let ml ← data.u16From 10
+      let id ← data.u16From 12
+      let rs ← data.byteAt 14
+      pure (.obj "NXActionController" [h, V.u16 ml, V.u16 id, V.u8 rs, pad])
+  | _, _ => .panic
+def new (id : Nat) : V :=
+  .obj "NXActionController" [NXActionHeader.newL Gen.openflow13.NXAST_CONTROLLER 16, .num 0, V.u16 (n16 id), .num 0, .num 0]
+end NXActionController
+
+namespace NXActionNote
+def zero : V := .obj "NXActionNote" [.nil, .bytes []]
+def lenM : V → R (UInt16 × V)
+  | .obj "NXActionNote" [h, .bytes note] => same (round8 (10 + n16 note.length)) (.obj "NXActionNote" [h, .bytes note])
+  | _ => .panic
+def marshalM : V → R (Bytes × V)
+  | .obj "NXActionNote" [h, .bytes note] => do
+    let l : UInt16 := round8 (10 + n16 note.length)
+    let h' ← NXActionHeader.setLength l h           -- a.Length = a.Len()
+    let hb ← NXActionHeader.bytes h'
+    let bs ← fill l.toNat [pCopy hb, pCopy note]
+    .ok (bs, .obj "NXActionNote" [h', .bytes note])
+  | _ => .panic
+/-- `a.Note = make([]byte, int(a.Length-n)); copy(a.Note, data[n:a.Length])` with n = 10 (uint16): a Length below
+    10 wraps the size and then `data[10:Length]` panics -/
+def unmarshal (_recv : V) (data : Slice) : R V := do
+  let h ← NXActionHeader.unmarshal NXActionHeader.zero data
+  let l ← NXActionHeader.length h
+  if data.len < l.toNat then .err else do
+    let s ← data.sliceR 10 l.toNat
+    pure (.obj "NXActionNote" [h, .bytes (makeCopy (l - 10).toNat s.bytes)])
+def new : V := .obj "NXActionNote" [NXActionHeader.new Gen.openflow13.NXAST_NOTE, .bytes []]
+end NXActionNote
+
+namespace NXActionRegLoad2
+def zero : V := .obj "NXActionRegLoad2" [.nil, .nil, .bytes []]
+def lenM : V → R (UInt16 × V)
+  | .obj "NXActionRegLoad2" [h, f, pad] =>
+    match f with
+    | .nil => .panic                                  -- a.DstField.Len() dereferences
+    | f => do
+      let (fl, f') ← MatchField.lenM f
+      .ok (round8 (10 + fl), .obj "NXActionRegLoad2" [h, f', pad])
+  | _ => .panic
+def marshalM (v : V) : R (Bytes × V) := do
+  let (l0, v) ← lenM v           -- make([]byte, int(a.Len()))
+  let (l1, v) ← lenM v           -- a.Length = a.Len()
+  match v with
+  | .obj "NXActionRegLoad2" [h, f, pad] =>
+    let h' ← NXActionHeader.setLength l1 h
+    let hb ← NXActionHeader.bytes h'
+    let (fb, f') ← MatchField.marshalM f
+    let bs ← fill l0.toNat [pCopy hb, pCopy fb]
+    .ok (bs, .obj "NXActionRegLoad2" [h', f', pad])
+  | _ => .panic
+def unmarshal : V → Slice → R V
+  | .obj "NXActionRegLoad2" [_, _, pad], data => do
+    let h ← nxPrefix data
+    let d ← data.fromR 10
+    let f ← MatchField.unmarshal mfZero d
+    pure (.obj "NXActionRegLoad2" [h, f, pad])
+  | _, _ => .panic
+def new (f : V) : V := .obj "NXActionRegLoad2" [NXActionHeader.new Gen.openflow13.NXAST_REG_LOAD2, f, .bytes []]
+end NXActionRegLoad2
+
+
+/-! net.IP helpers (net.IPv4, IP.To4, IP.To16); a nil and an empty IP are not distinguished (the library never
+    produces an empty non-nil one) -/
+def actV4InV6Prefix : Bytes := zeros 10 ++ [0xff, 0xff]
+def actIpv4 (a b c d : UInt8) : Bytes := actV4InV6Prefix ++ [a, b, c, d]
+def actIpTo4 (ip : Bytes) : Bytes :=
+  if ip.length = 4 then ip
+  else if ip.length = 16 ∧ ip.take 12 = actV4InV6Prefix then ip.drop 12
+  else []
+def actIpTo16 (ip : Bytes) : Bytes :=
+  if ip.length = 4 then actV4InV6Prefix ++ ip
+  else if ip.length = 16 then ip
+  else []
+
+namespace NXActionCTNAT
+def zero : V := .obj "NXActionCTNAT" [.nil, .bytes [], .num 0, .num 0, .bytes [], .bytes [], .bytes [], .bytes [], .nil, .nil]
+/-- Len() MUTATES: a.Length = ((a.Length + 7) / 8) * 8 -/
+def lenM : V → R (UInt16 × V)
+  | .obj "NXActionCTNAT" (h :: r) => do
+    let l ← NXActionHeader.length h
+    let h' ← NXActionHeader.setLength (round8 l) h
+    .ok (round8 l, .obj "NXActionCTNAT" (h' :: r))
+  | _ => .panic
+def marshalM (v : V) : R (Bytes × V) := do
+  let (l, v) ← lenM v
+  match v with
+  | .obj "NXActionCTNAT" [h, pad, .num fl, .num rp, .bytes v4a, .bytes v4b, .bytes v6a, .bytes v6b, pmin, pmax] =>
+    let hb ← NXActionHeader.bytes h
+    -- `if a.rangeProtoMin != nil { PutUint16(data[n:], *a.rangeProtoMax) }`: tests Min, dereferences Max
+    let pmaxPieces ← (match pmin, pmax with
+      | .nil, _ => .ok []
+      | _, .num y => .ok [pU16 y]
+      | _, _ => .panic : R (List Piece))
+    let ps := [pCopy hb, pSkip 2, pU16 fl, pU16 rp]
+      ++ (if v4a ≠ [] then [pCopyAdv (actIpTo4 v4a) 4] else [])
+      ++ (if v4b ≠ [] then [pCopyAdv (actIpTo4 v4b) 4] else [])
+      ++ (if v6a ≠ [] then [pCopyAdv (actIpTo16 v6a) 16] else [])
+      ++ (if v6b ≠ [] then [pCopyAdv (actIpTo16 v6b) 16] else [])
+      ++ (match pmin with | .num x => [pU16 x] | _ => [])
+      ++ pmaxPieces
+    let bs ← fill l.toNat ps
+    .ok (bs, .obj "NXActionCTNAT" [h, pad, .num fl, .num rp, .bytes v4a, .bytes v4b, .bytes v6a, .bytes v6b, pmin, pmax])
+  | _ => .panic
+
+def rdIPv4 (present : Bool) (data : Slice) (n : Nat) (old : V) : R (V × Nat) :=
+  if present then do
+    let a ← data.byteAt n
+    let b ← data.byteAt (n + 1)
+    let c ← data.byteAt (n + 2)
+    let d ← data.byteAt (n + 3)
+    pure (.bytes (actIpv4 a b c d), n + 4)
+  else pure (old, n)
+def rdIPv6 (present : Bool) (data : Slice) (n : Nat) (old : V) : R (V × Nat) :=
+  if present then do
+    let s ← data.sliceR n (n + 16)
+    pure (.bytes (makeCopy 16 s.bytes), n + 16)
+  else pure (old, n)
+def rdPort (present : Bool) (data : Slice) (n : Nat) (old : V) : R (V × Nat) :=
+  if present then do
+    let p ← data.u16From n
+    pure (V.u16 p, n + 2)
+  else pure (old, n)
+def has (rp : UInt16) (bit : Nat) : Bool := rp.toNat &&& bit ≠ 0
+
+def unmarshal : V → Slice → R V
+  | .obj "NXActionCTNAT" [_, pad, _, _, v4a, v4b, v6a, v6b, pmin, pmax], data => do
+    let (h, _) ← NXActionHeader.fresh data
+    -- if len(data) < int(a.Len())   (Len rounds the stored length)
+    let l ← NXActionHeader.length h
+    let h ← NXActionHeader.setLength (round8 l) h
+    if data.len < (round8 l).toNat then .err else do
+      let fl ← data.u16From 12
+      let rp ← data.u16From 14
+      let (v4a, n) ← rdIPv4 (has rp Gen.openflow13.NX_NAT_RANGE_IPV4_MIN) data 16 v4a
+      let (v4b, n) ← rdIPv4 (has rp Gen.openflow13.NX_NAT_RANGE_IPV4_MAX) data n v4b
+      let (v6a, n) ← rdIPv6 (has rp Gen.openflow13.NX_NAT_RANGE_IPV6_MIN) data n v6a
+      let (v6b, n) ← rdIPv6 (has rp Gen.openflow13.NX_NAT_RANGE_IPV6_MAX) data n v6b
+      let (pmin, n) ← rdPort (has rp Gen.openflow13.NX_NAT_RANGE_PROTO_MIN) data n pmin
+      let (pmax, _) ← rdPort (has rp Gen.openflow13.NX_NAT_RANGE_PROTO_MAX) data n pmax
+      pure (.obj "NXActionCTNAT" [h, pad, V.u16 fl, V.u16 rp, v4a, v4b, v6a, v6b, pmin, pmax])
+  | _, _ => .panic
+def new : V :=
+  .obj "NXActionCTNAT" [NXActionHeader.newL Gen.openflow13.NXAST_NAT 16, .bytes (zeros 2), .num 0, .num 0,
+    .bytes [], .bytes [], .bytes [], .bytes [], .nil, .nil]
+
+/-- SetSNAT/SetDNAT/SetProtoHash/SetRandom: refuse when `excl` is set, else Flags |= bit -/
+def setFlag (excl bit : Nat) : V → R V
+  | .obj "NXActionCTNAT" [h, pad, .num fl, rp, a, b, c, d, e, f] =>
+    if fl &&& excl ≠ 0 then .err
+    else .ok (.obj "NXActionCTNAT" [h, pad, .num (fl ||| bit), rp, a, b, c, d, e, f])
+  | _ => .panic
+/-- SetRangeXxx(x): field idx := x; rangePresent |= bit; a.Length += add -/
+def setRange (idx bit : Nat) (add : UInt16) (x : V) : V → R V
+  | .obj "NXActionCTNAT" [h, pad, fl, .num rp, a, b, c, d, e, f] => do
+    let l ← NXActionHeader.length h
+    let h' ← NXActionHeader.setLength (l + add) h
+    let fs := ([a, b, c, d, e, f] : List V).set idx x
+    pure (.obj "NXActionCTNAT" ([h', pad, fl, .num (rp ||| bit)] ++ fs))
+  | _ => .panic
+end NXActionCTNAT
+
+namespace NXLearnSpecHeader
+def zero : V := .obj "NXLearnSpecHeader" [.num 0, .num 0, .num 0, .num 0, .num 0]
+def lenM : V → R (UInt16 × V)
+  | .obj "NXLearnSpecHeader" [s, d, o, nb, .num ln] => same (n16 ln) (.obj "NXLearnSpecHeader" [s, d, o, nb, .num ln])
+  | _ => .panic
+def bitMatch : UInt16 := shl16 1 Gen.openflow13.LEARN_SPEC_HEADER_MATCH
+def bitLoad : UInt16 := shl16 1 Gen.openflow13.LEARN_SPEC_HEADER_LOAD
+def bitOutput : UInt16 := shl16 2 Gen.openflow13.LEARN_SPEC_HEADER_LOAD
+def word (src dst out nb : Nat) : UInt16 :=
+  let v : UInt16 := n16 nb
+  let v := if src ≠ 0 then v ||| bitMatch else v &&& ~~~bitMatch
+  let v := if dst ≠ 0 then v ||| bitLoad else v &&& ~~~bitLoad
+  if out ≠ 0 then (v &&& ~~~bitMatch) ||| bitOutput else v
+def bytes : V → R Bytes
+  | .obj "NXLearnSpecHeader" [.num s, .num d, .num o, .num nb, .num ln] =>
+    fill (n16 ln).toNat [Piece.put (be16 (word s d o nb))]
+  | _ => .panic
+def marshalM (v : V) : R (Bytes × V) := do let b ← bytes v; same b v
+def unmarshal (_recv : V) (data : Slice) : R V :=
+  if data.len < 2 then .err else do
+    let w ← data.u16Here
+    pure (.obj "NXLearnSpecHeader" [V.bool (w &&& bitMatch ≠ 0), V.bool (w &&& bitLoad ≠ 0), V.bool (w &&& bitOutput ≠ 0),
+      V.u16 (shr16 0xffff 5 &&& w), .num 2])
+def new (src dst out nb : Nat) : V := .obj "NXLearnSpecHeader" [.num src, .num dst, .num out, V.u16 (n16 nb), .num 2]
+end NXLearnSpecHeader
+
+namespace NXLearnSpecField
+def zero : V := .obj "NXLearnSpecField" [.nil, .num 0]
+def lenM (v : V) : R (UInt16 × V) := same 6 v
+def marshalM : V → R (Bytes × V)
+  | .obj "NXLearnSpecField" [f, .num ofs] => do
+    let hw ← mfHeader f
+    let bs ← fill 6 [pU32 hw, pU16 ofs]
+    same bs (.obj "NXLearnSpecField" [f, .num ofs])
+  | _ => .panic      -- nil *NXLearnSpecField: f.Field dereferences
+def unmarshal (_recv : V) (data : Slice) : R V :=
+  if data.len < 6 then .err else do
+    let d0 ← data.fromR 0
+    let f ← MatchField.unmarshalHeader mfZero d0
+    let ofs ← data.u16From 4
+    pure (.obj "NXLearnSpecField" [f, V.u16 ofs])
+end NXLearnSpecField
+
+namespace NXLearnSpec
+def zero : V := .obj "NXLearnSpec" [.nil, .nil, .nil, .bytes []]
+/-- 2 * ((nBits + 15) / 16) in uint16 -/
+def srcLen (nb : Nat) : UInt16 := 2 * ((n16 nb + 15) / 16)
+def len : V → R UInt16
+  | .obj "NXLearnSpec" [.obj "NXLearnSpecHeader" [.num src, _, .num out, .num nb, .num hl], _, _, _] =>
+    let l : UInt16 := n16 hl
+    let l := if src ≠ 0 then l + srcLen nb else l + 6
+    .ok (if out = 0 then l + 6 else l)
+  | _ => .panic      -- nil spec or nil Header
+def lenM (v : V) : R (UInt16 × V) := do let l ← len v; same l v
+/-- `s.SrcValue[:srcDataLength]` is modelled with cap(SrcValue) = len(SrcValue) (true for decoded specs) -/
+def marshalM (v : V) : R (Bytes × V) := do
+  let l ← len v
+  match v with
+  | .obj "NXLearnSpec" [.obj "NXLearnSpecHeader" [.num src, d, .num out, .num nb, hl], sf, df, .bytes sv] =>
+    let hb ← NXLearnSpecHeader.bytes (.obj "NXLearnSpecHeader" [.num src, d, .num out, .num nb, hl])
+    let (srcData, k) ← (if src ≠ 0 then
+        let k := (srcLen nb).toNat
+        if k ≤ sv.length then .ok (sv.take k, k) else .panic
+      else do
+        let (b, _) ← NXLearnSpecField.marshalM sf
+        pure (b, 6) : R (Bytes × Nat))
+    let ps := [pCopy hb, pCopyAdv srcData k]
+    if out = 0 then do
+      let (db, _) ← NXLearnSpecField.marshalM df
+      let bs ← fill l.toNat (ps ++ [pCopy db])
+      same bs v
+    else do
+      let bs ← fill l.toNat ps
+      same bs v
+  | _ => .panic
+def unmarshal : V → Slice → R V
+  | .obj "NXLearnSpec" [_, sf0, df0, sv0], data => do
+    let hdr ← NXLearnSpecHeader.unmarshal NXLearnSpecHeader.zero data
+    match hdr with
+    | .obj "NXLearnSpecHeader" [.num src, _, .num out, .num nb, _] =>
+      let (sf, sv, n) ← (if src ≠ 0 then do
+          let k := srcLen nb
+          let s ← data.sliceR 2 (2 + k.toNat)
+          pure (sf0, V.bytes (makeCopy k.toNat s.bytes), (2 + k : UInt16))
+        else do
+          let d ← data.fromR 2
+          let f ← NXLearnSpecField.unmarshal NXLearnSpecField.zero d
+          pure (f, sv0, (8 : UInt16)) : R (V × V × UInt16))
+      if out = 0 then do
+        let d ← data.fromR n.toNat
+        let df ← NXLearnSpecField.unmarshal NXLearnSpecField.zero d
+        pure (.obj "NXLearnSpec" [hdr, sf, df, sv])
+      else pure (.obj "NXLearnSpec" [hdr, sf, df0, sv])
+    | _ => .panic
+  | _, _ => .panic
+end NXLearnSpec
+
+namespace NXActionLearn
+def zero : V := .obj "NXActionLearn" [.nil, .num 0, .num 0, .num 0, .num 0, .num 0, .num 0, .num 0, .num 0, .num 0, .list [], .bytes []]
+def specsLen : List V → R UInt16
+  | [] => .ok 0
+  | s :: r => do
+    let l ← NXLearnSpec.len s
+    let t ← specsLen r
+    pure (l + t)
+def len : V → R UInt16
+  | .obj "NXActionLearn" [_, _, _, _, _, _, _, _, _, _, .list specs, _] => do
+    let t ← specsLen specs
+    pure (round8 (10 + 22 + t))
+  | _ => .panic
+def lenM (v : V) : R (UInt16 × V) := do let l ← len v; same l v
+def marshalM (v : V) : R (Bytes × V) := do
+  let l ← len v
+  match v with
+  | .obj "NXActionLearn" [h, .num idle, .num hard, .num prio, .num cookie, .num fl, .num tid, pad, .num fi, .num fh, .list specs, pad2] =>
+    let h' ← NXActionHeader.setLength l h       -- a.Length = a.Len()
+    let hb ← NXActionHeader.bytes h'
+    let (sbs, _) ← mapM2 NXLearnSpec.marshalM specs
+    let bs ← fill l.toNat ([pCopy hb, pU16 idle, pU16 hard, pU16 prio, pU64 cookie, pU16 fl, pU8 tid, pSkip 1, pU16 fi, pU16 fh]
+      ++ sbs.map pCopy)
+    .ok (bs, .obj "NXActionLearn" [h', .num idle, .num hard, .num prio, .num cookie, .num fl, .num tid, pad, .num fi, .num fh, .list specs, pad2])
+  | _ => .panic
+
+structure St where
+  n : Nat
+  specs : List V
+
+def unmarshal : V → Slice → R V
+  | .obj "NXActionLearn" [_, _, _, _, _, _, _, pad, _, _, .list specs0, pad2], data => do
+    let h ← NXActionHeader.unmarshal NXActionHeader.zero data
+    let l ← NXActionHeader.length h
+    let L := l.toNat
+    if data.len < L then .err else do
+      let idle ← data.u16From 10
+      let hard ← data.u16From 12
+      let prio ← data.u16From 14
+      let cookie ← data.u64From 16
+      let fl ← data.u16From 24
+      let tid ← data.byteAt 26
+      let fi ← data.u16From 28
+      let fh ← data.u16From 30
+      -- for n < int(a.Length) { if int(a.Length)-n < 8 { break } … }
+      let st ← goLoop (σ := St) 65536 (fun s => s.n < L && !(L - s.n < 8)) (·.n)
+        (fun s => do
+          let d ← data.fromR s.n
+          let spec ← NXLearnSpec.unmarshal NXLearnSpec.zero d
+          let sl ← NXLearnSpec.len spec
+          pure { n := s.n + sl.toNat, specs := s.specs ++ [spec] })
+        { n := 32, specs := specs0 }
+      pure (.obj "NXActionLearn" [h, V.u16 idle, V.u16 hard, V.u16 prio, V.u64 cookie, V.u16 fl, V.u8 tid, pad, V.u16 fi, V.u16 fh,
+        .list st.specs, pad2])
+  | _, _ => .panic
+def new : V :=
+  .obj "NXActionLearn" [NXActionHeader.new Gen.openflow13.NXAST_LEARN, .num 0, .num 0, .num 0, .num 0, .num 0, .num 0, .num 0, .num 0, .num 0, .list [], .bytes []]
+end NXActionLearn
+
+
+namespace NXActionConnTrack
+def zero : V := .obj "NXActionConnTrack" [.nil, .num 0, .num 0, .num 0, .num 0, .bytes [], .num 0, .list []]
+def lenM : V → R (UInt16 × V)
+  | .obj "NXActionConnTrack" (h :: r) => do let l ← NXActionHeader.length h; same l (.obj "NXActionConnTrack" (h :: r))
+  | _ => .panic
+
+/-- `for _, action := range a.actions { b, err := action.MarshalBinary(); if err … ; copy(data[n:], b); n += len(b) }`
+    `sub` is the interface dispatch Action.MarshalBinary (one nesting level down) -/
+def marshalActs (sub : V → R (Bytes × V)) : List V → Bytes → Nat → R (Bytes × List V)
+  | [], buf, _ => .ok (buf, [])
+  | a :: as, buf, n => do
+    let (ab, a') ← sub a
+    let buf' ← fillFrom buf n [pCopy ab]
+    let (buf'', as') ← marshalActs sub as buf' (n + ab.length)
+    pure (buf'', a' :: as')
+
+def marshalWith (sub : V → R (Bytes × V)) : V → R (Bytes × V)
+  | .obj "NXActionConnTrack" [h, .num fl, .num zs, .num zo, .num rt, .bytes pad, .num alg, .list acts] => do
+    let l ← NXActionHeader.length h                 -- make([]byte, int(a.Length))
+    let hb ← NXActionHeader.bytes h
+    let buf ← fill l.toNat [pCopy hb, pU16 fl, pU32 zs, pU16 zo, pU8 rt, pCopyAdv pad 3, pU16 alg]
+    let (buf', acts') ← marshalActs sub acts buf 24
+    .ok (buf', .obj "NXActionConnTrack" [h, .num fl, .num zs, .num zo, .num rt, .bytes pad, .num alg, .list acts'])
+  | _ => .panic
+
+structure St where
+  n : Nat
+  acts : List V
+
+/-- `dec` = DecodeAction (one nesting level down), `alen` = Action.Len of a decoded action.
+    The loop runs while n < a.Length (the DECODED length field) and advances by act.Len(); an action whose Len() is 0
+    never advances: endless loop appending to a.actions. Afterwards `a.Length = uint16(n)` overwrites the decoded length. -/
+def unmarshalWith (dec : Slice → R V) (alen : V → R (UInt16 × V)) : V → Slice → R V
+  | .obj "NXActionConnTrack" [_, _, _, _, _, .bytes pad, _, .list acts0], data => do
+    let h ← nxPrefix data
+    let l ← NXActionHeader.length h
+    let fl ← data.u16From 10
+    let zs ← data.u32From 12
+    let zo ← data.u16From 16
+    let rt ← data.byteAt 18
+    let s ← data.sliceR 19 22
+    let alg ← data.u16From 22
+    let st ← goLoop (σ := St) 65536 (fun s => s.n < l.toNat) (·.n)
+      (fun s => do
+        let d ← data.fromR s.n
+        let act ← dec d
+        let (al, act') ← alen act
+        pure { n := s.n + al.toNat, acts := s.acts ++ [act'] })
+      { n := 24, acts := acts0 }
+    let h' ← NXActionHeader.setLength (n16 st.n) h
+    pure (.obj "NXActionConnTrack" [h', V.u16 fl, V.u32 zs, V.u16 zo, V.u8 rt, .bytes (copyInto pad s.bytes), V.u16 alg, .list st.acts])
+  | _, _ => .panic
+
+def new : V :=
+  .obj "NXActionConnTrack" [NXActionHeader.newL Gen.openflow13.NXAST_CT 24, .num 0, .num 0, .num 0,
+    .num Gen.openflow13.NX_CT_RECIRC_NONE, .bytes [], .num 0, .list []]
+end NXActionConnTrack
+
+/-! ### interface Action: dispatch on the dynamic type -/
+namespace Action
+
+/-- Action.Len() -/
+def lenM (v : V) : R (UInt16 × V) :=
+  match v.kind with
+  | "ActionHeader" => ActionHeader.lenM v
+  | "ActionOutput" => ActionOutput.lenM v
+  | "ActionSetqueue" => ActionSetqueue.lenM v
+  | "ActionGroup" => ActionGroup.lenM v
+  | "ActionMplsTtl" => ActionMplsTtl.lenM v
+  | "ActionNwTtl" => ActionNwTtl.lenM v
+  | "ActionDecNwTtl" => ActionDecNwTtl.lenM v
+  | "ActionPush" => ActionPush.lenM v
+  | "ActionPopVlan" => ActionPopVlan.lenM v
+  | "ActionPopMpls" => ActionPopMpls.lenM v
+  | "ActionSetField" => ActionSetField.lenM v
+  | "NXActionHeader" => NXActionHeader.lenM v
+  | "NXActionConjunction" => NXActionConjunction.lenM v
+  | "NXActionConnTrack" => NXActionConnTrack.lenM v
+  | "NXActionRegLoad" => NXActionRegLoad.lenM v
+  | "NXActionRegMove" => NXActionRegMove.lenM v
+  | "NXActionResubmit" => NXActionResubmit.lenM v
+  | "NXActionResubmitTable" => NXActionResubmitTable.lenM v
+  | "NXActionCTNAT" => NXActionCTNAT.lenM v
+  | "NXActionOutputReg" => NXActionOutputReg.lenM v
+  | "NXActionCTClear" => NXActionCTClear.lenM v
+  | "NXActionDecTTL" => NXActionDecTTL.lenM v
+  | "NXActionDecTTLCntIDs" => NXActionDecTTLCntIDs.lenM v
+  | "NXActionLearn" => NXActionLearn.lenM v
+  | "NXActionNote" => NXActionNote.lenM v
+  | "NXActionRegLoad2" => NXActionRegLoad2.lenM v
+  | "NXActionController" => NXActionController.lenM v
+  | _ => .panic       -- nil interface
+
+/-- MarshalBinary of every kind except conntrack (whose nested actions need the dispatch itself) -/
+def marshalLeaf (v : V) : R (Bytes × V) :=
+  match v.kind with
+  | "ActionHeader" => ActionHeader.marshalM v
+  | "ActionOutput" => ActionOutput.marshalM v
+  | "ActionSetqueue" => ActionSetqueue.marshalM v
+  | "ActionGroup" => ActionGroup.marshalM v
+  | "ActionMplsTtl" => ActionMplsTtl.marshalM v
+  | "ActionNwTtl" => ActionNwTtl.marshalM v
+  | "ActionDecNwTtl" => ActionDecNwTtl.marshalM v
+  | "ActionPush" => ActionPush.marshalM v
+  | "ActionPopVlan" => ActionPopVlan.marshalM v
+  | "ActionPopMpls" => ActionPopMpls.marshalM v
+  | "ActionSetField" => ActionSetField.marshalM v
+  | "NXActionHeader" => NXActionHeader.marshalM v
+  | "NXActionConjunction" => NXActionConjunction.marshalM v
+  | "NXActionRegLoad" => NXActionRegLoad.marshalM v
+  | "NXActionRegMove" => NXActionRegMove.marshalM v
+  | "NXActionResubmit" => NXActionResubmit.marshalM v
+  | "NXActionResubmitTable" => NXActionResubmitTable.marshalM v
+  | "NXActionCTNAT" => NXActionCTNAT.marshalM v
+  | "NXActionOutputReg" => NXActionOutputReg.marshalM v
+  | "NXActionCTClear" => NXActionCTClear.marshalM v
+  | "NXActionDecTTL" => NXActionDecTTL.marshalM v
+  | "NXActionDecTTLCntIDs" => NXActionDecTTLCntIDs.marshalM v
+  | "NXActionLearn" => NXActionLearn.marshalM v
+  | "NXActionNote" => NXActionNote.marshalM v
+  | "NXActionRegLoad2" => NXActionRegLoad2.marshalM v
+  | "NXActionController" => NXActionController.marshalM v
+  | _ => .panic
+
+/-- Action.MarshalBinary() with an explicit bound on the nesting of conntrack actions. Depth 0 is unreachable for
+    values nested less deeply than the starting depth (generators keep the nesting below `encDepth`). -/
+def marshalD : Nat → V → R (Bytes × V)
+  | 0, _ => .panic
+  | d + 1, v =>
+    if v.kind = "NXActionConnTrack" then NXActionConnTrack.marshalWith (marshalD d) v
+    else marshalLeaf v
+
+def encDepth : Nat := 8
+def marshalM (v : V) : R (Bytes × V) := marshalD (encDepth + 1) v
+
+/-- UnmarshalBinary of every kind except conntrack, on the receiver `a` -/
+def unmarshalLeaf (a : V) (data : Slice) : R V :=
+  match a.kind with
+  | "ActionHeader" => ActionHeader.unmarshal a data
+  | "ActionOutput" => ActionOutput.unmarshal a data
+  | "ActionSetqueue" => ActionSetqueue.unmarshal a data
+  | "ActionGroup" => ActionGroup.unmarshal a data
+  | "ActionMplsTtl" => ActionMplsTtl.unmarshal a data
+  | "ActionNwTtl" => ActionNwTtl.unmarshal a data
+  | "ActionDecNwTtl" => ActionDecNwTtl.unmarshal a data
+  | "ActionPush" => ActionPush.unmarshal a data
+  | "ActionPopVlan" => ActionPopVlan.unmarshal a data
+  | "ActionPopMpls" => ActionPopMpls.unmarshal a data
+  | "ActionSetField" => ActionSetField.unmarshal a data
+  | "NXActionHeader" => NXActionHeader.unmarshal a data
+  | "NXActionConjunction" => NXActionConjunction.unmarshal a data
+  | "NXActionRegLoad" => NXActionRegLoad.unmarshal a data
+  | "NXActionRegMove" => NXActionRegMove.unmarshal a data
+  | "NXActionResubmit" => NXActionResubmit.unmarshal a data
+  | "NXActionResubmitTable" => NXActionResubmitTable.unmarshal a data
+  | "NXActionCTNAT" => NXActionCTNAT.unmarshal a data
+  | "NXActionOutputReg" => NXActionOutputReg.unmarshal a data
+  | "NXActionCTClear" => NXActionCTClear.unmarshal a data
+  | "NXActionDecTTL" => NXActionDecTTL.unmarshal a data
+  | "NXActionDecTTLCntIDs" => NXActionDecTTLCntIDs.unmarshal a data
+  | "NXActionLearn" => NXActionLearn.unmarshal a data
+  | "NXActionNote" => NXActionNote.unmarshal a data
+  | "NXActionRegLoad2" => NXActionRegLoad2.unmarshal a data
+  | "NXActionController" => NXActionController.unmarshal a data
+  | _ => .panic       -- a == nil: method call on a nil interface
+end Action
+
+namespace NXActionConnTrack
+def marshalM (v : V) : R (Bytes × V) := marshalWith (Action.marshalD Action.encDepth) v
+end NXActionConnTrack
+
+/-- subtype ↦ new(T) of DecodeNxAction; subtypes not listed leave `a` nil -/
+def nxSubtypeTable : List (Nat × V) := [
+  (Gen.openflow13.NXAST_RESUBMIT, NXActionResubmit.zero),
+  (Gen.openflow13.NXAST_REG_MOVE, NXActionRegMove.zero),
+  (Gen.openflow13.NXAST_REG_LOAD, NXActionRegLoad.zero),
+  (Gen.openflow13.NXAST_NOTE, NXActionNote.zero),
+  (Gen.openflow13.NXAST_RESUBMIT_TABLE, NXActionResubmitTable.zero),
+  (Gen.openflow13.NXAST_OUTPUT_REG, NXActionOutputReg.zero),
+  (Gen.openflow13.NXAST_LEARN, NXActionLearn.zero),
+  (Gen.openflow13.NXAST_DEC_TTL, NXActionDecTTL.zero),
+  (Gen.openflow13.NXAST_CONTROLLER, NXActionController.zero),
+  (Gen.openflow13.NXAST_DEC_TTL_CNT_IDS, NXActionDecTTLCntIDs.zero),
+  (Gen.openflow13.NXAST_OUTPUT_REG2, NXActionOutputReg.zero),
+  (Gen.openflow13.NXAST_REG_LOAD2, NXActionRegLoad2.zero),
+  (Gen.openflow13.NXAST_CONJUNCTION, NXActionConjunction.zero),
+  (Gen.openflow13.NXAST_CT, NXActionConnTrack.zero),
+  (Gen.openflow13.NXAST_NAT, NXActionCTNAT.zero),
+  (Gen.openflow13.NXAST_CT_CLEAR, NXActionCTClear.zero),
+  (Gen.openflow13.NXAST_CT_RESUBMIT, NXActionResubmitTable.zeroCT)
+]
+
+/-- DecodeNxAction(data): `binary.BigEndian.Uint16(data[8:])`, then the freshly allocated action or nil -/
+def DecodeNxAction (data : Slice) : R V := do
+  let st ← data.u16From 8
+  pure ((nxSubtypeTable.lookup st.toNat).getD .nil)
+
+/-- type ↦ new(T) of DecodeAction for the non-experimenter types -/
+def actionTypeTable : List (Nat × V) := [
+  (Gen.openflow13.ActionType_Output, ActionOutput.zero),
+  (Gen.openflow13.ActionType_CopyTtlOut, ActionHeader.zero),
+  (Gen.openflow13.ActionType_CopyTtlIn, ActionHeader.zero),
+  (Gen.openflow13.ActionType_SetMplsTtl, ActionMplsTtl.zero),
+  (Gen.openflow13.ActionType_DecMplsTtl, ActionHeader.zero),
+  (Gen.openflow13.ActionType_PushVlan, ActionPush.zero),
+  (Gen.openflow13.ActionType_PopVlan, ActionPopVlan.zero),
+  (Gen.openflow13.ActionType_PushMpls, ActionPush.zero),
+  (Gen.openflow13.ActionType_PopMpls, ActionPopMpls.zero),
+  (Gen.openflow13.ActionType_SetQueue, ActionSetqueue.zero),
+  (Gen.openflow13.ActionType_Group, ActionGroup.zero),
+  (Gen.openflow13.ActionType_SetNwTtl, ActionNwTtl.zero),
+  (Gen.openflow13.ActionType_DecNwTtl, ActionDecNwTtl.zero),
+  (Gen.openflow13.ActionType_SetField, ActionSetField.zero),
+  (Gen.openflow13.ActionType_PushPbb, ActionPush.zero),
+  (Gen.openflow13.ActionType_PopPbb, ActionHeader.zero)
+]
+
+/-- the `switch t` of DecodeAction: the receiver `a` (nil for unknown types, foreign vendors, unknown subtypes) -/
+def newActionFor (data : Slice) : R V := do
+  let t ← data.u16In 0 2
+  match actionTypeTable.lookup t.toNat with
+  | some z => pure z
+  | none =>
+    if t.toNat = Gen.openflow13.ActionType_Experimenter then
+      if data.len < Gen.openflow13.NxActionHeaderLength then .err else do
+        let v ← data.u32In 4 8
+        if v.toNat = Gen.openflow13.NxExperimenterID then DecodeNxAction data else pure .nil
+    else pure .nil
+
+/-- DecodeAction(data). First argument: remaining nesting depth; start it at `data.len + 1` — every conntrack level
+    consumes at least 24 bytes of a strictly shorter slice, so depth 0 is unreachable.
+    `err := a.UnmarshalBinary(data)` on a nil `a` is a nil-interface method call: panic. -/
+def DecodeAction : Nat → Slice → R V
+  | 0, _ => .panic
+  | d + 1, data => do
+    let a ← newActionFor data
+    if a.kind = "NXActionConnTrack" then NXActionConnTrack.unmarshalWith (DecodeAction d) Action.lenM a data
+    else Action.unmarshalLeaf a data
+
+namespace NXActionConnTrack
+def unmarshal (recv : V) (data : Slice) : R V := unmarshalWith (DecodeAction (data.len + 1)) Action.lenM recv data
+
+def chain (v : V) : R (V × List V) := .ok (v, [v])
+def commit : V → R (V × List V)
+  | .obj "NXActionConnTrack" [h, .num fl, a, b, c, d, e, f] =>
+    chain (.obj "NXActionConnTrack" [h, .num (fl ||| Gen.openflow13.NX_CT_F_COMMIT), a, b, c, d, e, f])
+  | _ => .panic
+def force : V → R (V × List V)
+  | .obj "NXActionConnTrack" [h, .num fl, a, b, c, d, e, f] =>
+    chain (.obj "NXActionConnTrack" [h, .num (fl ||| Gen.openflow13.NX_CT_F_FORCE), a, b, c, d, e, f])
+  | _ => .panic
+def table (t : Nat) : V → R (V × List V)
+  | .obj "NXActionConnTrack" [h, fl, a, b, _, d, e, f] => chain (.obj "NXActionConnTrack" [h, fl, a, b, V.u8 (n8 t), d, e, f])
+  | _ => .panic
+def zoneImm (z : Nat) : V → R (V × List V)
+  | .obj "NXActionConnTrack" [h, fl, _, _, c, d, e, f] => chain (.obj "NXActionConnTrack" [h, fl, .num 0, V.u16 (n16 z), c, d, e, f])
+  | _ => .panic
+/-- rng.ToOfsBits() on a *NXRange (int fields; the text syntax only carries non-negative values) -/
+def rangeOfsBits : V → R UInt16
+  | .obj "NXRange" [.num s, .num e] =>
+    .ok (Gen.openflow13.NXRange.ToOfsBits { start := Int64.ofNat s, end_ := Int64.ofNat e })
+  | _ => .panic
+def zoneRange (field rng : V) : V → R (V × List V)
+  | .obj "NXActionConnTrack" [h, fl, _, _, c, d, e, f] => do
+    let hw ← mfHeader field
+    let ob ← rangeOfsBits rng
+    chain (.obj "NXActionConnTrack" [h, fl, .num hw, V.u16 ob, c, d, e, f])
+  | _ => .panic
+/-- AddAction(actions...): append, then a.Length += act.Len() (act.Len() may itself round act's stored length) -/
+def addActions : V → List V → R V
+  | v, [] => .ok v
+  | .obj "NXActionConnTrack" [h, a, b, c, d, e, f, .list acts], act :: rest => do
+    let l ← NXActionHeader.length h
+    let (al, act') ← Action.lenM act
+    let h' ← NXActionHeader.setLength (l + al) h
+    addActions (.obj "NXActionConnTrack" [h', a, b, c, d, e, f, .list (acts ++ [act'])]) rest
+  | _, _ => .panic
+end NXActionConnTrack
+
+
+/-! ### tables -/
+
+/-- Capacity of the `[]byte` the harness hands to a function called through `fn`: it builds the argument with
+    `append([]byte(nil), bytes...)`, and Go's growslice rounds the capacity up to the allocator's size class
+    (the spare tail is zeroed). Decoders re-slice up to cap, so this is visible. Empty ⇒ nil slice, cap 0. -/
+def sizeClasses : List Nat := [8, 16, 24, 32, 48, 64, 80, 96, 112, 128, 144, 160, 176, 192, 208, 224, 240, 256, 288, 320,
+  352, 384, 416, 448, 480, 512, 576, 640, 704, 768, 896, 1024, 1152, 1280, 1408, 1536, 1792, 2048]
+def appendCap (n : Nat) : Nat := if n = 0 then 0 else ((sizeClasses.find? (fun c => n ≤ c)).getD n)
+def fnSlice (b : Bytes) : Slice := ⟨b ++ zeros (appendCap b.length - b.length), b.length⟩
+
+def kindsAction : KindTab := [
+  ("ActionHeader", ⟨ActionHeader.lenM, ActionHeader.marshalM, ActionHeader.unmarshal, ActionHeader.zero⟩),
+  ("ActionOutput", ⟨ActionOutput.lenM, ActionOutput.marshalM, ActionOutput.unmarshal, ActionOutput.zero⟩),
+  ("ActionSetqueue", ⟨ActionSetqueue.lenM, ActionSetqueue.marshalM, ActionSetqueue.unmarshal, ActionSetqueue.zero⟩),
+  ("ActionGroup", ⟨ActionGroup.lenM, ActionGroup.marshalM, ActionGroup.unmarshal, ActionGroup.zero⟩),
+  ("ActionMplsTtl", ⟨ActionMplsTtl.lenM, ActionMplsTtl.marshalM, ActionMplsTtl.unmarshal, ActionMplsTtl.zero⟩),
+  ("ActionNwTtl", ⟨ActionNwTtl.lenM, ActionNwTtl.marshalM, ActionNwTtl.unmarshal, ActionNwTtl.zero⟩),
+  ("ActionDecNwTtl", ⟨ActionDecNwTtl.lenM, ActionDecNwTtl.marshalM, ActionDecNwTtl.unmarshal, ActionDecNwTtl.zero⟩),
+  ("ActionPush", ⟨ActionPush.lenM, ActionPush.marshalM, ActionPush.unmarshal, ActionPush.zero⟩),
+  ("ActionPopVlan", ⟨ActionPopVlan.lenM, ActionPopVlan.marshalM, ActionPopVlan.unmarshal, ActionPopVlan.zero⟩),
+  ("ActionPopMpls", ⟨ActionPopMpls.lenM, ActionPopMpls.marshalM, ActionPopMpls.unmarshal, ActionPopMpls.zero⟩),
+  ("ActionSetField", ⟨ActionSetField.lenM, ActionSetField.marshalM, ActionSetField.unmarshal, ActionSetField.zero⟩),
+  ("NXActionHeader", ⟨NXActionHeader.lenM, NXActionHeader.marshalM, NXActionHeader.unmarshal, NXActionHeader.zero⟩),
+  ("NXActionConjunction", ⟨NXActionConjunction.lenM, NXActionConjunction.marshalM, NXActionConjunction.unmarshal, NXActionConjunction.zero⟩),
+  ("NXActionConnTrack", ⟨NXActionConnTrack.lenM, NXActionConnTrack.marshalM, NXActionConnTrack.unmarshal, NXActionConnTrack.zero⟩),
+  ("NXActionRegLoad", ⟨NXActionRegLoad.lenM, NXActionRegLoad.marshalM, NXActionRegLoad.unmarshal, NXActionRegLoad.zero⟩),
+  ("NXActionRegMove", ⟨NXActionRegMove.lenM, NXActionRegMove.marshalM, NXActionRegMove.unmarshal, NXActionRegMove.zero⟩),
+  ("NXActionResubmit", ⟨NXActionResubmit.lenM, NXActionResubmit.marshalM, NXActionResubmit.unmarshal, NXActionResubmit.zero⟩),
+  ("NXActionResubmitTable", ⟨NXActionResubmitTable.lenM, NXActionResubmitTable.marshalM, NXActionResubmitTable.unmarshal, NXActionResubmitTable.zero⟩),
+  ("NXActionCTNAT", ⟨NXActionCTNAT.lenM, NXActionCTNAT.marshalM, NXActionCTNAT.unmarshal, NXActionCTNAT.zero⟩),
+  ("NXActionOutputReg", ⟨NXActionOutputReg.lenM, NXActionOutputReg.marshalM, NXActionOutputReg.unmarshal, NXActionOutputReg.zero⟩),
+  ("NXActionCTClear", ⟨NXActionCTClear.lenM, NXActionCTClear.marshalM, NXActionCTClear.unmarshal, NXActionCTClear.zero⟩),
+  ("NXActionDecTTL", ⟨NXActionDecTTL.lenM, NXActionDecTTL.marshalM, NXActionDecTTL.unmarshal, NXActionDecTTL.zero⟩),
+  ("NXActionDecTTLCntIDs", ⟨NXActionDecTTLCntIDs.lenM, NXActionDecTTLCntIDs.marshalM, NXActionDecTTLCntIDs.unmarshal, NXActionDecTTLCntIDs.zero⟩),
+  ("NXLearnSpecHeader", ⟨NXLearnSpecHeader.lenM, NXLearnSpecHeader.marshalM, NXLearnSpecHeader.unmarshal, NXLearnSpecHeader.zero⟩),
+  ("NXLearnSpecField", ⟨NXLearnSpecField.lenM, NXLearnSpecField.marshalM, NXLearnSpecField.unmarshal, NXLearnSpecField.zero⟩),
+  ("NXLearnSpec", ⟨NXLearnSpec.lenM, NXLearnSpec.marshalM, NXLearnSpec.unmarshal, NXLearnSpec.zero⟩),
+  ("NXActionLearn", ⟨NXActionLearn.lenM, NXActionLearn.marshalM, NXActionLearn.unmarshal, NXActionLearn.zero⟩),
+  ("NXActionNote", ⟨NXActionNote.lenM, NXActionNote.marshalM, NXActionNote.unmarshal, NXActionNote.zero⟩),
+  ("NXActionRegLoad2", ⟨NXActionRegLoad2.lenM, NXActionRegLoad2.marshalM, NXActionRegLoad2.unmarshal, NXActionRegLoad2.zero⟩),
+  ("NXActionController", ⟨NXActionController.lenM, NXActionController.marshalM, NXActionController.unmarshal, NXActionController.zero⟩)
+]
+
+def mkF (f : List V → R (List V)) : List V → R (List V) := f
+def mkM (f : V → List V → R (V × List V)) : V → List V → R (V × List V) := f
+
+def funcsAction : FuncTab := [
+  ("NewActionOutput", mkF fun | [.num p] => ret1 (ActionOutput.new p) | _ => .panic),
+  ("NewActionSetQueue", mkF fun | [.num q] => ret1 (ActionSetqueue.new q) | _ => .panic),
+  ("NewActionGroup", mkF fun | [.num g] => ret1 (ActionGroup.new g) | _ => .panic),
+  ("NewActionDecNwTtl", mkF fun | [] => ret1 ActionDecNwTtl.new | _ => .panic),
+  ("NewActionPushVlan", mkF fun | [.num et] => ret1 (ActionPush.new Gen.openflow13.ActionType_PushVlan et) | _ => .panic),
+  ("NewActionPushMpls", mkF fun | [.num et] => ret1 (ActionPush.new Gen.openflow13.ActionType_PushMpls et) | _ => .panic),
+  ("NewActionPopVlan", mkF fun | [] => ret1 ActionPopVlan.new | _ => .panic),
+  ("NewActionPopMpls", mkF fun | [.num et] => ret1 (ActionPopMpls.new et) | _ => .panic),
+  ("NewActionSetField", mkF fun | [f] => do let v ← ActionSetField.new f; ret1 v | _ => .panic),
+  ("NewNxActionHeader", mkF fun | [.num st] => ret1 (NXActionHeader.new st) | _ => .panic),
+  ("NewNXActionConjunction", mkF fun | [.num c, .num nc, .num id] => ret1 (NXActionConjunction.new c nc id) | _ => .panic),
+  ("NewNXActionConnTrack", mkF fun | [] => ret1 NXActionConnTrack.new | _ => .panic),
+  ("NewNXActionRegLoad", mkF fun | [.num ofs, dst, .num val] => ret1 (NXActionRegLoad.new ofs dst val) | _ => .panic),
+  ("NewNXActionRegMove", mkF fun | [.num nb, .num so, .num dso, sf, df] => ret1 (NXActionRegMove.new nb so dso sf df) | _ => .panic),
+  ("NewNXActionResubmit", mkF fun | [.num ip] => do let v ← NXActionResubmit.new ip; ret1 v | _ => .panic),
+  ("NewNXActionResubmitTableAction", mkF fun
+    | [.num ip, .num t] => ret1 (NXActionResubmitTable.new Gen.openflow13.NXAST_RESUBMIT_TABLE ip t 0) | _ => .panic),
+  ("NewNXActionResubmitTableCT", mkF fun
+    | [.num ip, .num t] => ret1 (NXActionResubmitTable.new Gen.openflow13.NXAST_CT_RESUBMIT ip t 1) | _ => .panic),
+  ("NewNXActionResubmitTableCTNoInPort", mkF fun
+    | [.num t] => ret1 (NXActionResubmitTable.new Gen.openflow13.NXAST_CT_RESUBMIT Gen.openflow13.OFPP_IN_PORT t 1) | _ => .panic),
+  ("NewNXActionCTNAT", mkF fun | [] => ret1 NXActionCTNAT.new | _ => .panic),
+  ("NewOutputFromField", mkF fun | [sf, .num ofs] => ret1 (NXActionOutputReg.new sf ofs 0xffff) | _ => .panic),
+  ("NewOutputFromFieldWithMaxLen", mkF fun | [sf, .num ofs, .num ml] => ret1 (NXActionOutputReg.new sf ofs ml) | _ => .panic),
+  ("NewNXActionCTClear", mkF fun | [] => ret1 NXActionCTClear.new | _ => .panic),
+  ("NewNXActionDecTTL", mkF fun | [] => ret1 NXActionDecTTL.new | _ => .panic),
+  ("NewNXActionDecTTLCntIDs", mkF fun | .num c :: ids => ret1 (NXActionDecTTLCntIDs.new c ids) | _ => .panic),
+  ("NewLearnHeaderMatchFromValue", mkF fun | [.num nb] => ret1 (NXLearnSpecHeader.new 1 0 0 nb) | _ => .panic),
+  ("NewLearnHeaderMatchFromField", mkF fun | [.num nb] => ret1 (NXLearnSpecHeader.new 0 0 0 nb) | _ => .panic),
+  ("NewLearnHeaderLoadFromValue", mkF fun | [.num nb] => ret1 (NXLearnSpecHeader.new 1 1 0 nb) | _ => .panic),
+  ("NewLearnHeaderLoadFromField", mkF fun | [.num nb] => ret1 (NXLearnSpecHeader.new 0 1 0 nb) | _ => .panic),
+  ("NewLearnHeaderOutputFromField", mkF fun | [.num nb] => ret1 (NXLearnSpecHeader.new 0 0 1 nb) | _ => .panic),
+  ("NewNXActionLearn", mkF fun | [] => ret1 NXActionLearn.new | _ => .panic),
+  ("NewNXActionNote", mkF fun | [] => ret1 NXActionNote.new | _ => .panic),
+  ("NewNXActionRegLoad2", mkF fun | [f] => ret1 (NXActionRegLoad2.new f) | _ => .panic),
+  ("NewNXActionController", mkF fun | [.num id] => ret1 (NXActionController.new id) | _ => .panic),
+  ("DecodeAction", mkF fun
+    | [.bytes b] => do let a ← DecodeAction (b.length + 1) (fnSlice b); ret1 a
+    | _ => .panic),
+  ("DecodeNxAction", mkF fun
+    | [.bytes b] => do let a ← DecodeNxAction (fnSlice b); ret1 a
+    | _ => .panic)
+]
+
+/-- `Header()` of every Action kind: the embedded ActionHeader (NX kinds: through the embedded *NXActionHeader, nil ⇒ panic).
+    `NXHeader()` of NX kinds: the embedded pointer itself. Read-only use (the Go results alias the receiver). -/
+def headerOf : V → R (V × List V)
+  | .obj "ActionHeader" fs => .ok (.obj "ActionHeader" fs, [.obj "ActionHeader" fs])
+  | .obj "NXActionHeader" [ah, a, b] => .ok (.obj "NXActionHeader" [ah, a, b], [ah])
+  | .obj k (.obj "ActionHeader" fs :: r) => .ok (.obj k (.obj "ActionHeader" fs :: r), [.obj "ActionHeader" fs])
+  | .obj k (.obj "NXActionHeader" [ah, a, b] :: r) => .ok (.obj k (.obj "NXActionHeader" [ah, a, b] :: r), [ah])
+  | _ => .panic
+def nxHeaderOf : V → R (V × List V)
+  | .obj "NXActionHeader" fs => .ok (.obj "NXActionHeader" fs, [.obj "NXActionHeader" fs])
+  | .obj k (h :: r) => .ok (.obj k (h :: r), [h])
+  | _ => .panic
+
+def plainKinds : List String := ["ActionHeader", "ActionOutput", "ActionSetqueue", "ActionGroup", "ActionMplsTtl", "ActionNwTtl",
+  "ActionDecNwTtl", "ActionPush", "ActionPopVlan", "ActionPopMpls", "ActionSetField"]
+def nxKinds : List String := ["NXActionHeader", "NXActionConjunction", "NXActionConnTrack", "NXActionRegLoad", "NXActionRegMove",
+  "NXActionResubmit", "NXActionResubmitTable", "NXActionCTNAT", "NXActionOutputReg", "NXActionCTClear", "NXActionDecTTL",
+  "NXActionDecTTLCntIDs", "NXActionLearn", "NXActionNote", "NXActionRegLoad2", "NXActionController"]
+
+def methodsAction : MethodTab :=
+  (plainKinds ++ nxKinds).map (fun k => (k ++ ".Header", mkM fun v _ => headerOf v)) ++
+  nxKinds.map (fun k => (k ++ ".NXHeader", mkM fun v _ => nxHeaderOf v)) ++ [
+  ("NXActionConnTrack.Commit", mkM fun v _ => NXActionConnTrack.commit v),
+  ("NXActionConnTrack.Force", mkM fun v _ => NXActionConnTrack.force v),
+  ("NXActionConnTrack.Table", mkM fun v as => match as with | [.num t] => NXActionConnTrack.table t v | _ => .panic),
+  ("NXActionConnTrack.ZoneImm", mkM fun v as => match as with | [.num z] => NXActionConnTrack.zoneImm z v | _ => .panic),
+  ("NXActionConnTrack.ZoneRange", mkM fun v as => match as with | [f, r] => NXActionConnTrack.zoneRange f r v | _ => .panic),
+  ("NXActionConnTrack.AddAction", mkM fun v as => do let v' ← NXActionConnTrack.addActions v as; NXActionConnTrack.chain v'),
+  ("NXActionResubmitTable.IsCT", mkM fun v _ => match v with
+    | .obj "NXActionResubmitTable" [_, _, _, _, ct] => .ok (v, [ct]) | _ => .panic),
+  ("NXActionCTNAT.SetSNAT", mkM fun v _ => do
+    let v' ← NXActionCTNAT.setFlag Gen.openflow13.NX_NAT_F_DST Gen.openflow13.NX_NAT_F_SRC v; upd v'),
+  ("NXActionCTNAT.SetDNAT", mkM fun v _ => do
+    let v' ← NXActionCTNAT.setFlag Gen.openflow13.NX_NAT_F_SRC Gen.openflow13.NX_NAT_F_DST v; upd v'),
+  ("NXActionCTNAT.SetProtoHash", mkM fun v _ => do
+    let v' ← NXActionCTNAT.setFlag Gen.openflow13.NX_NAT_F_PROTO_RANDOM Gen.openflow13.NX_NAT_F_PROTO_HASH v; upd v'),
+  ("NXActionCTNAT.SetRandom", mkM fun v _ => do
+    let v' ← NXActionCTNAT.setFlag Gen.openflow13.NX_NAT_F_PROTO_HASH Gen.openflow13.NX_NAT_F_PROTO_RANDOM v; upd v'),
+  ("NXActionCTNAT.SetPersistent", mkM fun v _ => do
+    let v' ← NXActionCTNAT.setFlag 0 Gen.openflow13.NX_NAT_F_PERSISTENT v; upd v'),
+  ("NXActionCTNAT.SetRangeIPv4Min", mkM fun v as => match as with
+    | [x] => do let v' ← NXActionCTNAT.setRange 0 Gen.openflow13.NX_NAT_RANGE_IPV4_MIN 4 x v; upd v' | _ => .panic),
+  ("NXActionCTNAT.SetRangeIPv4Max", mkM fun v as => match as with
+    | [x] => do let v' ← NXActionCTNAT.setRange 1 Gen.openflow13.NX_NAT_RANGE_IPV4_MAX 4 x v; upd v' | _ => .panic),
+  ("NXActionCTNAT.SetRangeIPv6Min", mkM fun v as => match as with
+    | [x] => do let v' ← NXActionCTNAT.setRange 2 Gen.openflow13.NX_NAT_RANGE_IPV6_MIN 16 x v; upd v' | _ => .panic),
+  ("NXActionCTNAT.SetRangeIPv6Max", mkM fun v as => match as with
+    | [x] => do let v' ← NXActionCTNAT.setRange 3 Gen.openflow13.NX_NAT_RANGE_IPV6_MAX 16 x v; upd v' | _ => .panic),
+  ("NXActionCTNAT.SetRangeProtoMin", mkM fun v as => match as with
+    | [x] => do let v' ← NXActionCTNAT.setRange 4 Gen.openflow13.NX_NAT_RANGE_PROTO_MIN 2 x v; upd v' | _ => .panic),
+  ("NXActionCTNAT.SetRangeProtoMax", mkM fun v as => match as with
+    | [x] => do let v' ← NXActionCTNAT.setRange 5 Gen.openflow13.NX_NAT_RANGE_PROTO_MAX 2 x v; upd v' | _ => .panic)
+]
 
 end OFV.Model
